@@ -2634,7 +2634,9 @@ impl Formatter {
     if self.html {
       format!("<table class=\"mech-table\">{}<tbody class=\"mech-table-body\">{}</tbody></table>",header,rows)
     } else {
-      format!("{}{}", header, rows)
+      // text mode: |name<kind> ...| cell ... | cell ... |
+      let row_texts: Vec<String> = node.rows.iter().map(|row| self.table_row(row)).collect();
+      if row_texts.is_empty() { format!("|{}|", header) } else { format!("|{}| {} |", header, row_texts.join(" | ")) }
     }
   }
 
@@ -2644,8 +2646,10 @@ impl Formatter {
       let f = self.field(field);
       if self.html {
         src = format!("{}<th class=\"mech-table-field\">{}</th>",src, f);
+      } else if i == 0 {
+        src = f;
       } else {
-        src = format!("{}{}",src, f);
+        src = format!("{} {}",src, f);
       }
     }
     if self.html {
@@ -2691,7 +2695,7 @@ impl Formatter {
     if self.html {
       format!("<div class=\"mech-field\"><span class=\"mech-field-name\">{}</span><span class=\"mech-field-kind\">{}</span></div>",name,kind)
     } else {
-      format!("{}: {}", name, kind)
+      format!("{}{}", name, kind)
     }
   }
 
